@@ -1,6 +1,7 @@
 import VerifModel.Base.Proto
 import VerifModel.Model.OutputTable
 import VerifModel.Model.TimeLabel
+import VerifModel.Model.OutputDescs
 /-
   Driver ops for the text / csv writers (C12).
 
@@ -13,6 +14,10 @@ import VerifModel.Model.TimeLabel
     value <chars>                         valueOf? (reads a %g numeral back)
     tlabel <axis> <t,t,…>                 Data.get_axis_descriptions on a time-like axis with these axis values
                                           (whole unix seconds): `Name:label,label,…`, blanks shown as `_`
+    qdesc <csv|text> <metric> <bin|-> <r|-> <q|-> <stored thresholds|-> <stored quantiles|->
+                                          the leading column of `-m <metric> -x threshold -type …`: `Threshold:v,v,…`
+                                          (one value per row), `NONE` (no threshold column), `ERR` (the driver stops);
+                                          `-` = option absent / nothing stored
 
   Encodings.  A string is `s` followed by its percent-encoded UTF-8 bytes; lists of strings are
   `;`-separated (`-` = empty list).  rows = `|`-separated `descs:ys` with descs a `;`-list of
@@ -125,6 +130,24 @@ def handle (args : List String) : Option String :=
         | some (h, ls) =>
           let shown := ls.map fun l => String.ofList (l.map fun c => if c = ' ' then '_' else c)
           String.ofList h ++ ":" ++ ",".intercalate shown)
+  | ["qdesc", kind, metric, bin, r, q, st, sq] => do
+      let _ ← if kind == "csv" || kind == "text" then some () else none
+      let rats := fun (tok : String) => (parseVec? tok).bind fun v =>
+        v.mapM fun x => match x with | XR.fin q => some q | _ => none
+      let optRats := fun (tok : String) => if tok == "-" then some none else (rats tok).map some
+      let r ← optRats r
+      let q ← optRats q
+      let st ← if st == "-" then some [] else rats st
+      let sq ← if sq == "-" then some [] else rats sq
+      let b := if bin == "-" then none else some bin
+      some (match Dispatch.nameD metric with
+        | none => "ERR"
+        | some nd =>
+          match OutputDescs.thresholdColumn nd (Dispatch.typeD kind) (Dispatch.axisD (some "threshold")) b
+              ⟨r, q, st, sq⟩ with
+          | .error _ => "ERR"
+          | .ok none => "NONE"
+          | .ok (some (h, vs)) => String.ofList h ++ ":" ++ (if vs.isEmpty then "-" else ",".intercalate (vs.map toString)))
   | ["value", s] => do
       let cs ← pctDecode s
       some (match valueOf? cs with | none => "ERR" | some v => toString v)
